@@ -154,6 +154,7 @@ type c02Op struct {
 	ClientState string `json:"client_state,omitempty"`
 	Challenge   string `json:"challenge,omitempty"`
 	Method      string `json:"method,omitempty"`
+	ExtraForm [][2]string `json:"extra_form,omitempty"` // further form parameters of a token request (the handler's request type admits them; over HTTP also unknown and duplicated ones, appended AFTER the regular ones)
 	Schedule []int `json:"schedule,omitempty"` // race: the order in which the two overlapping requests take their steps on the nonce entry (the replay IS the schedule)
 	Trace    []string `json:"trace,omitempty"`  // race: the store methods that were gated, in schedule order (information)
 	Fault string `json:"fault,omitempty"` // "nonce-get": the session store fails the first read of an s2s nonce entry during this request (Redis worlds)
@@ -713,6 +714,25 @@ func (w *c02World) httpToken(status int, body []byte) string {
 	return c02Err(oauth.OAuth2Error{Code: oauth.ErrorCode(e.Error), Description: e.Description})
 }
 
+// applyExtra puts the extra form parameters on a token request: on the typed body where the request type has the member and it
+// is not set yet (direct call), on the form in any case (HTTP; appended, so a duplicate comes second)
+func c02ApplyExtra(op *c02Op, body *HandleTokenRequestFormdataRequestBody, form url.Values) {
+	for _, kv := range op.ExtraForm {
+		k, v := kv[0], kv[1]
+		if form != nil {
+			form.Add(k, v)
+			continue
+		}
+		for name, member := range map[string]**string{"scope": &body.Scope, "assertion": &body.Assertion, "presentation_submission": &body.PresentationSubmission,
+			"code": &body.Code, "code_verifier": &body.CodeVerifier, "client_id": &body.ClientId} {
+			if name == k && *member == nil {
+				val := v
+				*member = &val
+			}
+		}
+	}
+}
+
 func (w *c02World) execS2S(op *c02Op) string {
 	w.script(op.VPs)
 	if op.Fault == "nonce-get" {
@@ -744,8 +764,10 @@ func (w *c02World) execS2S(op *c02Op) string {
 					form.Set(k, *v)
 				}
 			}
+			c02ApplyExtra(op, nil, form)
 			return w.httpToken(w.post("/oauth2/"+url.PathEscape(op.Subject)+"/token", form, hdr))
 		}
+		c02ApplyExtra(op, &body, nil)
 		resp, err := w.w.HandleTokenRequest(w.ctx(hdr, ""), HandleTokenRequestRequestObject{SubjectID: op.Subject, Body: &body})
 		if err != nil {
 			return c02Err(err)
@@ -1193,8 +1215,10 @@ func (w *c02World) execCode(op *c02Op) string {
 					form.Set(k, *v)
 				}
 			}
+			c02ApplyExtra(op, nil, form)
 			return w.httpToken(w.post("/oauth2/"+url.PathEscape(op.Subject)+"/token", form, hdr))
 		}
+		c02ApplyExtra(op, &body, nil)
 		resp, err := w.w.HandleTokenRequest(w.ctx(hdr, ""), HandleTokenRequestRequestObject{SubjectID: op.Subject, Body: &body})
 		if err != nil {
 			return c02Err(err)
@@ -2007,7 +2031,43 @@ func (g *c02Gen) codeRequest(defects []string) c02Op {
 	if op.Verifier != nil {
 		op.Sha = []c02Sha{{In: *op.Verifier, Out: c02S256(*op.Verifier)}}
 	}
+	if g.rng.Intn(2) == 0 {
+		// (a regular parameter that this request lacks must stay missing)
+		for _, kv := range g.extraForm("code") {
+			if (kv[0] == "code" && op.Code == nil) || (kv[0] == "code_verifier" && op.Verifier == nil) || (kv[0] == "client_id" && op.ClientID == nil) {
+				continue
+			}
+			op.ExtraForm = append(op.ExtraForm, kv)
+		}
+	}
 	return op
+}
+
+// extraForm: hostile values for every OTHER form parameter a token request can carry - the members the request type has for
+// the other grant, parameters of RFC 6749 / 7521 / 8707 the handler does not know, empty values, duplicates of the regular ones
+func (g *c02Gen) extraForm(grant string) [][2]string {
+	scopes := []string{"admin", "nope", ""}
+	for _, p := range g.policy {
+		scopes = append(scopes, p.Scope, p.Scope+" admin")
+	}
+	pool := [][2]string{
+		{"scope", scopes[g.rng.Intn(len(scopes))]}, {"scope", "admin"},
+		{"resource", "https://evil.example/api"}, {"audience", "https://evil.example"}, {"client_assertion", "eyJhbGciOiJub25lIn0.e30."},
+		{"client_assertion_type", "urn:ietf:params:oauth:client-assertion-type:jwt-bearer"}, {"redirect_uri", "https://evil.example/cb"},
+		{"client_secret", "s3cr3t"}, {"requested_token_type", "urn:ietf:params:oauth:token-type:jwt"}, {"grant_type", "vp_token-bearer"}, {"subjectID", "beta"},
+	}
+	if grant == "code" {
+		pool = append(pool, [2]string{"assertion", `{"not":"a presentation"}`}, [2]string{"presentation_submission", `{"id":"x","definition_id":"pd0","descriptor_map":[]}`},
+			[2]string{"client_id", "https://client.example/oauth2/mallory"}, [2]string{"code_verifier", "another-verifier"}, [2]string{"code", "bogus-code"})
+	} else {
+		pool = append(pool, [2]string{"code", "bogus-code"}, [2]string{"code_verifier", "another-verifier"}, [2]string{"client_id", "https://client.example/oauth2/mallory"},
+			[2]string{"scope", "admin"}, [2]string{"assertion", `{"not":"a presentation"}`})
+	}
+	var res [][2]string
+	for n := 1 + g.rng.Intn(3); n > 0; n-- {
+		res = append(res, pool[g.rng.Intn(len(pool))])
+	}
+	return res
 }
 
 func (g *c02Gen) unusedCode() bool {
@@ -2332,6 +2392,9 @@ func (g *c02Gen) s2sRequest(defects []string, now int64) c02Op {
 		!has("garbage-submission") && !has("foreign-definition") && !has("wrong-scope") && !has("signer-not-subject")
 	if pexKnown {
 		op.PexExpected = &expectPex
+	}
+	if op.Params && g.rng.Intn(3) == 0 {
+		op.ExtraForm = g.extraForm("s2s")
 	}
 	g.lastVPs = vps
 	return op
